@@ -346,6 +346,7 @@ ADDENDA6 = {
     "C04": " Comprehensions re-entered by recursion from their source, value and condition.",
     "C06": " NULL, booleans and numbers made by natives from text (parse_json) and arithmetic at the edge of the decimal range are reflexive and symmetric towards the constants.",
     "C08": " The text of a value whose earlier rendering was interrupted (a member whose _str_ failed and was removed since; a rendering begun when the stack was nearly used up).",
+    "C09": " Closures over the binder made in a caller-supplied environment and called after that call ended (by the host rendering the result, by a later program).",
     "C11": " One require statement evaluated several times with a module spec held in a variable (loop, function body, while loop; every form; load log).",
     "C12": " Seeded draws over spans beyond the generator's number of states.",
     "C14": " Line breaks and tabs written raw inside string literals; programs typed at the REPL over several lines.",
